@@ -218,7 +218,11 @@ hs_cmpOp = Literal("==") | Literal("!=") | Literal("<=") | Literal(">=") | Liter
 hs_cmp = (hs_path + hs_cmpOp + hs_val).setParseAction(
     lambda toks: FilterBinary(toks[1], toks[0], toks[2])
 )
-hs_missing = (Suppress(Literal("not")) + hs_path).setParseAction(
+# "not", "and" and "or" are whole words: notes, android, order are tag names
+hs_kwNot = Regex(r'not(?![a-zA-Z0-9_])')
+hs_kwAnd = Regex(r'and(?![a-zA-Z0-9_])')
+hs_kwOr = Regex(r'or(?![a-zA-Z0-9_])')
+hs_missing = (Suppress(hs_kwNot) + hs_path).setParseAction(
     lambda toks: FilterUnary("not", toks[0])
 )
 hs_has = hs_path.copy().setParseAction(
@@ -236,8 +240,8 @@ def _fold_left(op):
     return lambda toks: functools.reduce(lambda left, right: FilterBinary(op, left, right), toks[0::2])
 
 
-hs_condAnd = (hs_term + ZeroOrMore(Literal("and") + hs_term)).setParseAction(_fold_left("and"))
-hs_condOr = (hs_condAnd + ZeroOrMore(Literal("or") + hs_condAnd)).setParseAction(_fold_left("or"))
+hs_condAnd = (hs_term + ZeroOrMore(hs_kwAnd + hs_term)).setParseAction(_fold_left("and"))
+hs_condOr = (hs_condAnd + ZeroOrMore(hs_kwOr + hs_condAnd)).setParseAction(_fold_left("or"))
 hs_filter <<= hs_condOr
 
 
